@@ -17,6 +17,24 @@ MANAGERS = ["LocalSchemeManager", "DistributedSchemeManager"]
 MGR_METHODS = ["get_printer", "get_file_printer", "get_matcher", "definitions", "initialization", "terminate", "printer_map", "modules"]
 
 
+# private helpers whose text is inlined into every row that uses them (the printer rows carry the terminator rendering): their
+# own table is compared when the helper exists as a function, and is not missed when it was folded into something else
+OPTIONAL_HELPERS = {"scheme::manager::terminator_escape"}
+
+
+def helpers(facts):
+    out = []
+    for key in HELPERS:
+        if key in OPTIONAL_HELPERS:
+            try:
+                if actual(facts, key) not in facts.fns:
+                    continue
+            except F.AnchorMissing:
+                continue
+        out.append(key)
+    return out
+
+
 def outcome(st, v):
     if isinstance(v, dict):
         if v.get("v") == "panic":
@@ -150,7 +168,7 @@ def mgr_key(facts, mgr, method):
 def all_tables(facts):
     """name -> list of rows (without the state objects), for freezing / comparison."""
     out = {}
-    for key in COMPILE_IMPLS + HELPERS:
+    for key in COMPILE_IMPLS + helpers(facts):
         if actual(facts, key) not in facts.fns:
             raise F.AnchorMissing("function %s" % key)
         out[key] = table(facts, key)
